@@ -19,7 +19,10 @@ use std::sync::{Arc, Mutex};
 pub type Fault = Option<(usize, u64)>;
 
 pub struct FNode<H: HB> {
-    pub q: AnyQ<H>,
+    /// the queue of this node; frontier nodes do not keep it (memory): it is re-derived by replaying
+    /// the trail from the shared base state, which is deterministic
+    pub q: Option<AnyQ<H>>,
+    pub base_q: Arc<AnyQ<H>>,
     pub faults: u32,
     pub depth: u32,
     pub base: Arc<(bool, Root, Vec<Op>)>,
@@ -55,7 +58,6 @@ pub struct E3Cfg {
     pub max_wall_s: f64,
 }
 
-#[derive(Default)]
 pub struct E3Stats {
     pub capped: AtomicBool,
     pub levels: AtomicU64,
@@ -68,7 +70,34 @@ pub struct E3Stats {
     pub leaked_iter_cases: AtomicU64,
     pub per_class: [AtomicU64; NCLASS],
     pub samples: Mutex<Vec<String>>,
-    pub outcomes: Mutex<std::collections::HashSet<u64>>,
+    pub sample_count: AtomicU64,
+    pub outcomes: Vec<Mutex<std::collections::HashSet<u64>>>,
+}
+
+impl Default for E3Stats {
+    fn default() -> Self {
+        E3Stats {
+            capped: AtomicBool::new(false),
+            levels: AtomicU64::new(0),
+            base_states: AtomicU64::new(0),
+            post_fault_states: AtomicU64::new(0),
+            transitions: AtomicU64::new(0),
+            fault_points: AtomicU64::new(0),
+            faults_fired: AtomicU64::new(0),
+            cont_panics: AtomicU64::new(0),
+            leaked_iter_cases: AtomicU64::new(0),
+            per_class: Default::default(),
+            samples: Mutex::new(vec![]),
+            sample_count: AtomicU64::new(0),
+            outcomes: (0..64).map(|_| Mutex::new(Default::default())).collect(),
+        }
+    }
+}
+
+impl E3Stats {
+    pub fn outcome_count(&self) -> u64 {
+        self.outcomes.iter().map(|m| m.lock().unwrap().len() as u64).sum()
+    }
 }
 
 /// Execute `op` without judging anything but safety. The queue may disappear (a conversion that
@@ -262,10 +291,10 @@ impl<'a, H: HB> E3<'a, H> {
     }
 
     /// One transition inside its own registry window. Returns the callback counts of the run.
-    pub fn transition(&self, node: &FNode<H>, op: &Op, fault: Fault, want_successor: bool) -> Result<TransOut<H>, String> {
+    pub fn transition(&self, node: &FNode<H>, nq: &AnyQ<H>, op: &Op, fault: Fault, want_successor: bool, want_clone: bool) -> Result<TransOut<H>, String> {
         let universe = self.cfg.fault_cfg.universe();
         registry_begin();
-        let mut slot = Some(node.q.clone());
+        let mut slot = Some(nq.clone());
         reset_calls();
         if let Some((c, j)) = fault {
             arm(c, j);
@@ -291,9 +320,11 @@ impl<'a, H: HB> E3<'a, H> {
         if is_new {
             if let Some(q) = &slot {
                 with_q!(q, x => observe_deep(x));
-                registry_pause(true);
-                successor = catch_unwind(AssertUnwindSafe(|| q.clone())).ok();
-                registry_pause(false);
+                if want_clone {
+                    registry_pause(true);
+                    successor = catch_unwind(AssertUnwindSafe(|| q.clone())).ok();
+                    registry_pause(false);
+                }
             }
         }
         let leaked_ok = op_leaks_elements(op);
@@ -311,17 +342,46 @@ impl<'a, H: HB> E3<'a, H> {
         if leaked_ok {
             self.stats.leaked_iter_cases.fetch_add(1, AO::Relaxed);
         }
-        self.stats.outcomes.lock().unwrap().insert(hash64(&(op_name(op), fault.map(|f| f.0), fired, res.is_err(), live > 0)));
+        let oh = hash64(&(op_name(op), fault.map(|f| f.0), fired, res.is_err(), live > 0));
+        // thread-local cache in front of the shared set: the set is tiny, the stream is not
+        thread_local! { static SEEN_OUT: std::cell::RefCell<std::collections::HashSet<u64>> = std::cell::RefCell::new(Default::default()); }
+        let fresh = SEEN_OUT.with(|s| s.borrow_mut().insert(oh));
+        if fresh {
+            self.stats.outcomes[(oh % 64) as usize].lock().unwrap().insert(oh);
+        }
         Ok(TransOut { calls, successor, is_new })
+    }
+
+    /// Re-derive the queue of a frontier node: replay its trail (with the same injected faults)
+    /// from the shared base state.
+    pub fn rebuild(&self, node: &FNode<H>) -> Option<AnyQ<H>> {
+        if let Some(q) = &node.q {
+            return Some(q.clone());
+        }
+        let mut slot = Some((*node.base_q).clone());
+        for (op, fault) in trail_vec(&node.trail) {
+            if slot.is_none() {
+                return None;
+            }
+            reset_calls();
+            if let Some((c, j)) = fault {
+                arm(c, j);
+            }
+            let _ = catch_unwind(AssertUnwindSafe(|| exec_raw(&mut slot, &op)));
+            disarm();
+        }
+        slot
     }
 
     fn expand(&self, node: &FNode<H>, next: &mut Vec<FNode<H>>) {
         let cfg = self.cfg;
-        let snap = node.q.snap();
+        let Some(nq) = self.rebuild(node) else { return };
+        let nq = &nq;
+        let snap = nq.snap();
         let m = model_of(&snap);
         let mut ops = vec![];
         let acfg = if node.faults == 0 { &cfg.fault_cfg } else { &cfg.cont_cfg };
-        gen_ops(acfg, node.q.double(), &m, true, &mut ops);
+        gen_ops(acfg, nq.double(), &m, true, &mut ops);
         for op in &ops {
             if self.stop.load(AO::Relaxed) {
                 return;
@@ -329,7 +389,7 @@ impl<'a, H: HB> E3<'a, H> {
             // fault-free run: gives the callback counts; is itself a continuation for post-fault nodes
             crate::crash::set_case(|| self.case(node, op, None, String::new()));
             let can_go_deeper = node.depth < cfg.depth;
-            let t0 = match self.transition(node, op, None, node.faults > 0 && can_go_deeper) {
+            let t0 = match self.transition(node, nq, op, None, node.faults > 0 && can_go_deeper, false) {
                 Ok(t) => t,
                 Err(e) => {
                     self.report(self.case(node, op, None, e));
@@ -337,9 +397,9 @@ impl<'a, H: HB> E3<'a, H> {
                 }
             };
             self.stats.transitions.fetch_add(1, AO::Relaxed);
-            if let Some(q) = t0.successor {
+            if t0.is_new {
                 self.stats.post_fault_states.fetch_add(1, AO::Relaxed);
-                next.push(FNode { q, faults: node.faults, depth: node.depth + 1, base: node.base.clone(), trail: Some(Arc::new(Trail { parent: node.trail.clone(), op: op.clone(), fault: None })) });
+                next.push(FNode { q: None, base_q: node.base_q.clone(), faults: node.faults, depth: node.depth + 1, base: node.base.clone(), trail: Some(Arc::new(Trail { parent: node.trail.clone(), op: op.clone(), fault: None })) });
             }
             if node.faults >= cfg.max_faults || (node.faults > 0 && !can_go_deeper) {
                 continue;
@@ -350,22 +410,20 @@ impl<'a, H: HB> E3<'a, H> {
                     crate::crash::set_case(|| self.case(node, op, fault, String::new()));
                     self.stats.fault_points.fetch_add(1, AO::Relaxed);
                     self.stats.per_class[class].fetch_add(1, AO::Relaxed);
-                    match self.transition(node, op, fault, true) {
+                    match self.transition(node, nq, op, fault, true, false) {
                         Err(e) => {
                             self.report(self.case(node, op, fault, e));
                             return;
                         }
                         Ok(t) => {
                             self.stats.transitions.fetch_add(1, AO::Relaxed);
-                            if let Some(q) = t.successor {
+                            if t.is_new {
                                 self.stats.post_fault_states.fetch_add(1, AO::Relaxed);
                                 let depth = if node.faults == 0 { 0 } else { node.depth + 1 };
-                                let child = FNode { q, faults: node.faults + 1, depth, base: node.base.clone(), trail: Some(Arc::new(Trail { parent: node.trail.clone(), op: op.clone(), fault })) };
-                                {
-                                    let mut s = self.stats.samples.lock().unwrap();
-                                    if s.len() < 4 {
-                                        s.push(format!("{:?} {:?} then {:?} -> tables {:?}", node.base.1, node.base.2, trail_vec(&child.trail), child.q.snap()));
-                                    }
+                                let child = FNode { q: None, base_q: node.base_q.clone(), faults: node.faults + 1, depth, base: node.base.clone(), trail: Some(Arc::new(Trail { parent: node.trail.clone(), op: op.clone(), fault })) };
+                                if self.stats.sample_count.fetch_add(1, AO::Relaxed) < 4 {
+                                    let tables = self.rebuild(&child).map(|q| format!("{:?}", q.snap())).unwrap_or_default();
+                                    self.stats.samples.lock().unwrap().push(format!("{:?} {:?} then {:?} -> tables {tables}", node.base.1, node.base.2, trail_vec(&child.trail)));
                                 }
                                 next.push(child);
                             }
@@ -398,7 +456,7 @@ impl<'a, H: HB> E3<'a, H> {
                             if i >= fr.len() || self.stop.load(AO::Relaxed) {
                                 break;
                             }
-                            if self.stats.post_fault_states.load(AO::Relaxed) > self.cfg.max_states || t0.elapsed().as_secs_f64() > self.cfg.max_wall_s {
+                            if self.stats.post_fault_states.load(AO::Relaxed) > self.cfg.max_states || t0.elapsed().as_secs_f64() > self.cfg.max_wall_s || (i % 64 == 0 && crate::explore::rss_gb() > crate::explore::RSS_CAP_GB) {
                                 self.stats.capped.store(true, AO::Relaxed);
                                 break;
                             }
@@ -423,7 +481,7 @@ pub fn replay_trail<H: HB>(prop: &'static str, c: &Case) -> Result<(), String> {
     let cfg = E3Cfg { prop, fault_cfg: fc.clone(), cont_cfg: fc, max_faults: 9, depth: 99, threads: 1, max_states: u64::MAX, max_wall_s: 1e9 };
     let e3 = E3::<H>::new(&cfg);
     let base = Arc::new((c.double, c.root.clone(), c.ops.clone()));
-    let mut node = FNode { q, faults: 0, depth: 0, base, trail: None };
+    let mut node = FNode { base_q: Arc::new(q.clone()), q: Some(q), faults: 0, depth: 0, base, trail: None };
     for (i, (op, fault)) in c.trail.iter().enumerate() {
         crate::crash::set_case(|| c.clone());
         println!("  trail step {i}: {op:?} fault={:?}", fault.map(|(cl, j)| format!("{}#{j}", CLASS_NAMES[cl])));
@@ -431,11 +489,12 @@ pub fn replay_trail<H: HB>(prop: &'static str, c: &Case) -> Result<(), String> {
         for s in &e3.seen {
             s.lock().unwrap().clear();
         }
-        let t = e3.transition(&node, op, *fault, true).map_err(|e| format!("trail step {i} {op:?} fault {fault:?}: {e}"))?;
+        let nq = node.q.clone().unwrap();
+        let t = e3.transition(&node, &nq, op, *fault, true, true).map_err(|e| format!("trail step {i} {op:?} fault {fault:?}: {e}"))?;
         match t.successor {
             Some(q) => {
                 println!("      -> tables {:?}", q.snap());
-                node = FNode { q, faults: node.faults + fault.is_some() as u32, depth: 0, base: node.base.clone(), trail: None };
+                node = FNode { base_q: node.base_q.clone(), q: Some(q), faults: node.faults + fault.is_some() as u32, depth: 0, base: node.base.clone(), trail: None };
             }
             None => {
                 println!("      -> the queue was consumed");
